@@ -91,8 +91,8 @@ type Script struct {
 	FailAfterTxs         bool
 	FailCommit           bool
 	FailRevert           bool
-	FailVerifyTx         int // 1-based index of the transaction whose VerifyTransaction returns an error (0 = none)
-	FailExecTx           int // 1-based index of the transaction whose ExecuteTransaction returns an error (0 = none)
+	FailVerifyTx         int           // 1-based index of the transaction whose VerifyTransaction returns an error (0 = none)
+	FailExecTx           int           // 1-based index of the transaction whose ExecuteTransaction returns an error (0 = none)
 	VerifyTxResult       map[int]int32 // 0-based tx index -> VerifyTransaction result (default TxVerifyResultOk)
 	BeforeEvents         []*blockchain.Event
 	TxEvents             [][]*blockchain.Event // per transaction index
@@ -130,7 +130,7 @@ func (s *Script) AllEvents(nTx int) []*blockchain.Event {
 type ABI struct {
 	S        *Script
 	Genesis  *labi.InitGenesisStateResponse
-	Calls    []string // names of the calls received since the last ResetCalls
+	Calls    []string                        // names of the calls received since the last ResetCalls
 	OnInit   func(h *blockchain.BlockHeader) // optional: called at InitStateMachine (start of every block step) before answering
 	txCursor int
 }
@@ -155,7 +155,9 @@ func cpEvents(es []*blockchain.Event) []*blockchain.Event {
 
 var errScript = fmt.Errorf("abi-double: scripted failure")
 
-func (m *ABI) Init(req *labi.InitRequest) (*labi.InitResponse, error) { return &labi.InitResponse{}, nil }
+func (m *ABI) Init(req *labi.InitRequest) (*labi.InitResponse, error) {
+	return &labi.InitResponse{}, nil
+}
 func (m *ABI) InitStateMachine(req *labi.InitStateMachineRequest) (*labi.InitStateMachineResponse, error) {
 	m.log("InitStateMachine")
 	m.txCursor = 0
